@@ -20,7 +20,7 @@ func init() { register(c15{}) }
 func (c15) ID() string    { return "C15" }
 func (c15) Level() string { return "exploration" }
 func (c15) Rule() string {
-	return "through the verif-tagged hooks around the unexported codec. Values: encode with the library (dry run + write, as the packet encoders do), compare with the reference encoding and the reserved width, decode the bytes (followed by sentinel bytes) with the in-memory and the streaming decoder, check value, advance and bytes drawn from the reader — thorough: ALL 2^28 values; quick: all values below 2^21, +-64 around every size step, 2^20 stratified random values. Sequences: the in-memory decoder, the streaming decoder and the reference decoder run on every byte sequence of length 1..3 and (thorough) 4, i.e. 2^32 sequences, or (quick) 2^24 random 4-byte ones: the two library decoders must agree on rejection and value, must reject what ends on a continuation byte or continues past four bytes, and must decode minimal forms exactly; 5-byte sequences: four continuation bytes (all 2^28 prefixes in thorough, 2^20 random in quick) x fifth byte in {00,01,7f,80,ff}. Cross-check through the public API: Subscribe.SetSubscriptionID round trip over the boundary set the remaining-length bytes of PUBLISH frames whose size sweeps every step, and PUBLISH packets with several subscription identifiers. Decoding into a receiver that already holds a value, and the streaming decoder in eight goroutines on distinct readers under the race detector, must give the same results. distinct = values / sequences enumerated (counted by the loops; random ones via a hash set); non-trivial = all"
+	return "through the verif-tagged hooks around the unexported codec. Values: encode with the library (dry run + write, as the packet encoders do), compare with the reference encoding and the reserved width, decode the bytes (followed by sentinel bytes) with the in-memory and the streaming decoder, check value, advance and bytes drawn from the reader — thorough: ALL 2^28 values; quick: all values below 2^21, +-64 around every size step, 2^20 stratified random values. Sequences: the in-memory decoder, the streaming decoder and the reference decoder run (the streaming decoder both on a *bytes.Reader and on a reader that offers Read only) on every byte sequence of length 1..3 and (thorough) 4, i.e. 2^32 sequences, or (quick) 2^24 random 4-byte ones: the two library decoders must agree on rejection and value, must reject what ends on a continuation byte or continues past four bytes, and must decode minimal forms exactly; 5-byte sequences: four continuation bytes (all 2^28 prefixes in thorough, 2^20 random in quick) x fifth byte in {00,01,7f,80,ff}. Cross-check through the public API: Subscribe.SetSubscriptionID round trip over the boundary set the remaining-length bytes of PUBLISH frames whose size sweeps every step, and PUBLISH packets with several subscription identifiers. Decoding into a receiver that already holds a value, and the streaming decoder in eight goroutines on distinct readers under the race detector, must give the same results. distinct = values / sequences enumerated (counted by the loops; random ones via a hash set); non-trivial = all"
 }
 func (c15) Assumptions() []string {
 	return []string{"non-minimal encodings (e.g. 80 00) need not be rejected: only agreement of the two decoders on value or rejection is demanded for them", "the hooks call the same unexported functions the packet codecs use (verif_hooks.go, build tag verif)"}
@@ -50,6 +50,8 @@ func (c15) Phases(env run.Env) []run.Phase {
 type c15state struct {
 	c      *run.Ctx
 	rd     bytes.Reader
+	prd    bytes.Reader // behind plain: the same bytes through a reader with Read only
+	plain  *plainReader
 	buf    [12]byte
 	evals  int
 	failed int
@@ -108,6 +110,18 @@ func (s *c15state) seq(b []byte) {
 	rv, rn, rerr := ref.DecodeVBI(b)
 	s.evals += 2
 	det := func() map[string]interface{} { return map[string]interface{}{"sequence": fmt.Sprintf("% x", b)} }
+	// the streaming decoder once more through a reader that offers Read only
+	// (no ReadByte to discover): same verdict, value and advance (round 12, V3-b)
+	if s.plain == nil {
+		s.plain = &plainReader{&s.prd}
+	}
+	s.prd.Reset(b)
+	pv, pn, perr := mq.VerifVBIReadFrom(s.plain)
+	s.evals++
+	if (perr == nil) != (serr == nil) || (perr == nil && (pv != sv || pn != sn)) {
+		s.fail("C15/stream-decoder-depends-on-reader-type", fmt.Sprintf("sequence % x: from a *bytes.Reader value=%d n=%d err=%v, from a reader with Read only value=%d n=%d err=%v", b, sv, sn, serr, pv, pn, perr), det())
+		return
+	}
 	if (merr == nil) != (serr == nil) {
 		s.fail("C15/decoders-disagree/accept", fmt.Sprintf("sequence % x: in-memory decoder err=%v, streaming decoder err=%v", b, merr, serr), det())
 		return
